@@ -237,6 +237,7 @@ TYPING_OPTIONS = [
     ("use_title_as_name", [True]),
     ("allow_population_by_field_name", [True]),
     ("output_datetime_class", ["AwareDatetime", "NaiveDatetime"]),
+    ("strict_nullable", [True]),
 ]
 TARGETS = ["3.9", "3.10", "3.11", "3.12"]  # 3.13: generate() raises KeyError(PythonVersion.PY_313) with the black of this environment
 
@@ -333,3 +334,140 @@ def json_copy(x):
     import json
 
     return json.loads(json.dumps(x))
+
+
+# ---------------------------------------------------------------- members named like a name the emitted module needs
+# (C02, "no generated field hides a name the file needs"): the names each output kind's module text
+# reads — typing constructs, builtins used as types, the model library's names, the class's own name
+# and the classes its siblings refer to.
+SHADOW_POOLS = {
+    "typing": ["Optional", "List", "Dict", "Union", "Literal", "Any", "Set", "Sequence", "Mapping", "FrozenSet", "Annotated", "NotRequired", "TypedDict"],
+    "builtin": ["str", "int", "float", "bool", "bytes", "list", "dict", "set", "type", "object"],
+    "library": ["Field", "BaseModel", "RootModel", "ConfigDict", "constr", "conint", "confloat", "conlist", "AnyUrl", "Extra", "dataclass", "field", "Struct", "Meta", "UNSET",
+                "UnsetType", "Enum", "date", "datetime", "UUID", "Decimal"],
+}
+SHADOW_MODES = ["required", "optional", "default", "optional_described"]
+SHADOW_DEFS = {
+    "Address": {"type": "object", "properties": {"street": {"type": "string"}}},
+    "Pet": {"type": "object", "properties": {"name": {"type": "string"}, "tag": {"type": "string", "minLength": 1}}, "required": ["name"]},
+    "Kind": {"type": "string", "enum": ["a", "b"]},
+}
+
+
+def shadow_users() -> dict[str, dict]:
+    """sibling members whose rendered type / value uses the names in question"""
+    return {
+        "xs": {"type": "array", "items": {"type": "string"}},  # List / list / Sequence
+        "m": {"type": "object", "additionalProperties": {"type": "integer"}},  # Dict / dict / Mapping
+        "u": {"anyOf": [{"type": "integer"}, {"type": "string"}]},  # Union / |
+        "k": {"enum": ["only"]},  # Literal (literal mode) or Enum class
+        "c": {"const": "v"},  # Literal
+        "s": {"type": "string", "minLength": 1, "maxLength": 5},  # constr / Field / Meta / Annotated
+        "n": {"type": "integer", "minimum": 0},  # conint / Field
+        "x-y": {"type": "integer"},  # Field(alias=…) / field(name=…)
+        "dl": {"type": "array", "items": {"type": "string"}, "default": ["a"]},  # default_factory: Field / field
+        "uq": {"type": "array", "uniqueItems": True, "items": {"type": "integer"}},  # Set / FrozenSet
+        "d": {"type": "string", "format": "date"},
+        "w": {"type": "string", "format": "date-time"},
+        "uid": {"type": "string", "format": "uuid"},
+        "url": {"type": "string", "format": "uri"},
+        "dec": {"type": "number", "format": "decimal"},
+        "any": {},
+        "home": {"$ref": "#/definitions/Address"},
+        "pets": {"type": "array", "items": {"$ref": "#/definitions/Pet"}},
+        "kind": {"$ref": "#/definitions/Kind"},
+        "kd": {"$ref": "#/definitions/Kind", "default": "a"},  # enum member as default (set_default_enum_member)
+        "self": {"$ref": "#"},
+    }
+
+
+def shadow_member(mode: str, schema: dict) -> tuple[dict, bool]:
+    """(schema of the hiding member, required?)"""
+    s = json_copy(schema)
+    if mode == "required":
+        return s, True
+    if mode == "default":
+        g = Gen(Rng(0))
+        dv = g.default_for(s)
+        if dv is None:
+            dv = "d" if "type" not in s else None
+        if dv is not None:
+            s["default"] = dv
+        return s, False
+    if mode == "optional_described":
+        s["description"] = "text"  # forces a Field(...)/field(...) call as the member's value
+    return s, False
+
+
+SHADOW_MEMBER_SCHEMAS = [{"type": "string"}, {"type": "integer"}, {"type": "array", "items": {"type": "string"}}, {"type": "boolean"}, {"type": "string", "minLength": 1}]
+
+
+def shadow_grid_document(name: str, mode: str, position: str = "first") -> dict:
+    """one hiding member `name` (mode: required / optional / default / optional_described) next to
+    the standard sibling members; `position`: the hiding member first or last in the class"""
+    users = shadow_users()
+    hid, req = shadow_member(mode, {"type": "string"})
+    props: dict[str, Any] = {}
+    if position == "first":
+        props[name] = hid
+    for k in ("xs", "m", "u", "c", "s", "x-y", "dl", "d", "home", "kd"):
+        if k != name:
+            props[k] = users[k]
+    if position != "first":
+        props[name] = hid
+    doc: dict[str, Any] = {"title": "Model", "type": "object", "properties": props, "definitions": json_copy(SHADOW_DEFS)}
+    if req:
+        doc["required"] = [name]
+    return doc
+
+
+def shadow_document(rng: Rng) -> tuple[dict, list[str]]:
+    """random: 1–3 hiding members (typing names, builtins, library names, the class's own name, a
+    sibling's class, in every mode) among 2–5 sibling members that use such names; sometimes the
+    hiding member sits in a definition instead of the root class"""
+    users = shadow_users()
+    title = rng.choice(["Model", "Model", "Root", "Doc"])
+    feats = []
+    props: dict[str, Any] = {}
+    required = []
+    pool_names = list(SHADOW_POOLS)
+    entries = []
+    for _ in range(rng.range(1, 3)):
+        k = rng.below(8)
+        if k == 0:
+            name, cat = title, "own_class"
+        elif k == 1:
+            name, cat = rng.choice(list(SHADOW_DEFS)), "sibling_class"
+        else:
+            cat = rng.choice(pool_names)
+            name = rng.choice(SHADOW_POOLS[cat])
+        mode = rng.choice(SHADOW_MODES)
+        schema = rng.choice(SHADOW_MEMBER_SCHEMAS + ([{"$ref": f"#/definitions/{name}"}] if cat == "sibling_class" else []))
+        s, req = shadow_member(mode, schema)
+        entries.append((name, s, req))
+        feats.append(f"shadow:{cat}:{mode}")
+    user_keys = rng.sample(list(users), rng.range(2, 5))
+    order = [("h", e) for e in entries] + [("u", k) for k in user_keys]
+    order = rng.shuffle(order)
+    for tag, x in order:
+        if tag == "h":
+            name, s, req = x
+            if name in props:
+                continue
+            props[name] = s
+            if req:
+                required.append(name)
+        elif x not in props:
+            props[x] = users[x]
+            if rng.chance(1, 4):
+                required.append(x)
+    doc: dict[str, Any] = {"title": title, "type": "object", "properties": props, "definitions": json_copy(SHADOW_DEFS)}
+    if required:
+        doc["required"] = required
+    if rng.chance(1, 4):  # the same members inside a definition (a class that is not the root)
+        d = rng.choice(["Address", "Pet"])
+        doc["definitions"][d] = {"type": "object", "properties": {k: v for k, v in props.items() if v != {"$ref": "#"}}}
+        doc["properties"] = {"a": {"$ref": f"#/definitions/{d}"}, "note": {"type": "string"}}
+        doc.pop("required", None)
+        feats.append("shadow_in_definition")
+    return doc, feats
